@@ -28,7 +28,7 @@ EXPLANATION = "exhaustive bounded enumeration; stubs parsed with ast and compare
 ASSUMPTIONS = ["ast and inspect.signature are trusted", "generated sources carry no annotations (C13 covers those)"]
 
 KINDS0 = ["function", "coroutine", "generator", "asyncgen"]
-KINDS1 = ["instance", "classmethod", "staticmethod", "cocoroutine"]  # cocoroutine = coroutine method
+KINDS1 = ["instance", "classmethod", "staticmethod", "cocoroutine", "coclassmethod", "costaticmethod"]  # co* = coroutine method (plain / classmethod / staticmethod)
 
 
 def specs(tier: str) -> List[Tuple[str, int, Tuple[G.Param, ...], bool]]:
@@ -83,12 +83,12 @@ def gen_module(funcs: List[Tuple[str, int, Tuple[G.Param, ...], bool]], base: in
         if len(pl) > len(names):
             names = [f"{'p' if not long else 'parameter_with_long_name_number_'}{j}" for j in range(len(pl))]
         fname = f"fn{base + i}_{kind[:3]}"
-        recv = {"instance": "self", "classmethod": "cls", "property": "self", "cocoroutine": "self"}.get(kind, "")
+        recv = {"instance": "self", "classmethod": "cls", "property": "self", "cocoroutine": "self", "coclassmethod": "cls"}.get(kind, "")
         params = G.render_params(pl, names, recv)
-        deco = {"classmethod": "@classmethod", "staticmethod": "@staticmethod", "property": "@property"}.get(kind)
+        deco = {"classmethod": "@classmethod", "staticmethod": "@staticmethod", "property": "@property", "coclassmethod": "@classmethod", "costaticmethod": "@staticmethod"}.get(kind)
         if deco:
             lines.append(f"{indent}{deco}")
-        is_async = kind in ("coroutine", "cocoroutine", "asyncgen")
+        is_async = kind in ("coroutine", "cocoroutine", "asyncgen", "coclassmethod", "costaticmethod")
         lines.append(f"{indent}{'async ' if is_async else ''}def {fname}({params}):")
         if kind in ("generator", "asyncgen"):
             lines.append(f"{indent}    yield 1")
@@ -180,7 +180,7 @@ def check_subset(text: str, mod, metas: List[Dict[str, Any]], subset: Tuple[int,
         node = nodes[0]
         func = live(mod, m)
         decos = [ast.unparse(d) for d in node.decorator_list]
-        wantd = {"classmethod": ["classmethod"], "staticmethod": ["staticmethod"], "property": ["property"]}.get(m["kind"], [])
+        wantd = {"classmethod": ["classmethod"], "staticmethod": ["staticmethod"], "property": ["property"], "coclassmethod": ["classmethod"], "costaticmethod": ["staticmethod"]}.get(m["kind"], [])
         if decos != wantd:
             out.append(("decorator", m["kind"], f"{key}: decorators {decos}, expected {wantd}"))
         if isinstance(node, ast.AsyncFunctionDef) != inspect.iscoroutinefunction(func):
@@ -278,6 +278,35 @@ def run_module(res: Result, ctx: Ctx, mi: int, group, srcdir: Path, subsets: Opt
     del sys.modules[modname]
 
 
+ANN_SRC = '''
+from typing import List, Optional
+
+
+def partly(a, b: int = 5, /, c: str = "x", *rest: int, d=None, e: Optional[int] = None, **kw: str) -> int:
+    return 1
+
+
+def fully(a: int, b: List[int] = [], *, c: "str" = "s") -> "int":
+    return 1
+
+
+class Box:
+    def put(self, item, count: int = 1, /, label: str = "", *, force=False):
+        return 1
+
+    @staticmethod
+    def make(size: int = 3, name=None) -> int:
+        return 1
+
+    @classmethod
+    def build(cls, n: int = 0, *parts, flag: bool = False):
+        return 1
+
+    class Lid:
+        async def turn(self, by: float = 0.5, *, back: bool = True) -> int:
+            return 1
+'''
+
 SAME_SRC = '''
 def same(a, b=1):
     return 1
@@ -362,6 +391,38 @@ def special_stage(res: Result, ctx: Ctx, srcdir: Path) -> None:
         for kind, sig, msg in check_subset(text, mod, metas, tuple(order))[:2]:
             res.violate(Violation(ID, kind, "same-named:" + sig, case, f"functions all named `same`, trace order {order}: " + msg))
     res.oblige("special:same-named-functions", True)
+    # partially annotated sources under the three existing-annotation strategies: names, kinds, order and presence of
+    # defaults mirror the real function whatever happens to the annotations (which C13 judges)
+    from monkeytype.stubs import ExistingAnnotationStrategy
+
+    ametas = [
+        {"idx": 0, "path": (), "name": "partly", "kind": "function", "params": (), "names": [], "recv": ""},
+        {"idx": 1, "path": (), "name": "fully", "kind": "function", "params": (), "names": [], "recv": ""},
+        {"idx": 2, "path": ("Box",), "name": "put", "kind": "instance", "params": (), "names": [], "recv": "self"},
+        {"idx": 3, "path": ("Box",), "name": "make", "kind": "staticmethod", "params": (), "names": [], "recv": ""},
+        {"idx": 4, "path": ("Box",), "name": "build", "kind": "classmethod", "params": (), "names": [], "recv": "cls"},
+        {"idx": 5, "path": ("Box", "Lid"), "name": "turn", "kind": "cocoroutine", "params": (), "names": [], "recv": "self"},
+    ]
+    amod_name = f"c12ann_{ctx.seed}"
+    (srcdir / f"{amod_name}.py").write_text(ANN_SRC)
+    importlib.invalidate_caches()
+    amod = importlib.import_module(amod_name)
+    for strat in ExistingAnnotationStrategy:
+        for r in range(1, len(ametas) + 1):
+            for subset in itertools.combinations(range(len(ametas)), r):
+                res.states += 1
+                case = {"module_index": -3, "subset": list(subset), "tier": ctx.tier, "strategy": strat.name}
+                try:
+                    text = build_module_stubs_from_traces(traces_for(amod, ametas, subset), 0, existing_annotation_strategy=strat)[amod_name].render()
+                except Exception as e:  # noqa: BLE001
+                    res.violate(Violation(ID, "exception", type(e).__name__, case, f"annotated sources, {strat.name}: raised {e!r}"))
+                    continue
+                res.validated += 1
+                res.evaluations += 1
+                res.transitions += len(subset)
+                for kind, sig, msg in check_subset(text, amod, ametas, subset)[:2]:
+                    res.violate(Violation(ID, kind, f"annotated-source:{strat.name}:" + sig, case, f"partially annotated source, strategy {strat.name}: " + msg))
+    res.oblige("special:annotated-sources-x-strategies", True)
     # two modules interleaved
     gs = groups(ctx.tier)
     for a_i, b_i in ((0, 1), (2, 5)):
@@ -431,7 +492,7 @@ def run(ctx: Ctx) -> Result:
         return res
 
     res = run_shards(ctx, shard, list(range(nshards)))
-    for o in ("saw:StubIndexBuilder", "special:same-named-functions", "special:interleaved-modules", "saw:wrapped-signature", "saw:posonly-separator", "saw:kwonly-separator", "saw:async"):
+    for o in ("saw:StubIndexBuilder", "special:same-named-functions", "special:annotated-sources-x-strategies", "special:interleaved-modules", "saw:wrapped-signature", "saw:posonly-separator", "saw:kwonly-separator", "saw:async"):
         res.obligations.setdefault(o, False)
     res.bounds.update({"max_params": 4 if ctx.tier == "thorough" else "3 (+4 for function/instance)", "modules": len(gs), "functions_per_module": 5, "subsets": "all 31"})
     return res
